@@ -556,10 +556,13 @@ def object_facts():
                 secs[name] = (int(size, 16), flags, typ)
         rc, out, _ = run(["readelf", "-s", "-W", o])
         objs = []
+        imports = []
         for l in out.splitlines():
             m = re.match(r"\s*\d+:\s+[0-9a-f]+\s+(\d+)\s+(\S+)\s+(\S+)\s+\S+\s+(\S+)\s+(\S*)", l)
             if m:
                 size, typ, bind, ndx, name = m.groups()
+                if ndx == "UND" and name:
+                    imports.append(name.split("@")[0])
                 if typ in ("OBJECT", "TLS", "COMMON") and name:
                     sec = "COMMON" if ndx == "COM" else (secnames.get(int(ndx), ndx) if ndx.isdigit() else ndx)
                     if sec == "COMMON":
@@ -574,7 +577,7 @@ def object_facts():
                         cls = 0
                     objs.append((name, sec, cls, int(size)))
         writable = {n: s[0] for n, s in secs.items() if "W" in s[1] and "A" in s[1] and s[0] > 0 and not n.startswith(".data.rel.ro")}
-        facts.append({"file": os.path.relpath(f, SRC), "writable_sections": writable, "objects": objs,
+        facts.append({"file": os.path.relpath(f, SRC), "writable_sections": writable, "objects": objs, "imports": sorted(set(imports)),
                       "tls": {n: s[0] for n, s in secs.items() if "T" in s[1] and s[0] > 0}})
     return facts
 
@@ -604,7 +607,8 @@ def emit(data):
     s = HEADER
     for en, ents in pr["enums"].items():
         s += "def enum_%s : List (Name × Int) := [\n" % en
-        s += ",\n".join("  (%s, %s)" % (lname(n), lint(v)) for n, v in ents) + "]\n\n"
+        # in value order (then name), not declaration order: which enumerator is written first is presentation
+        s += ",\n".join("  (%s, %s)" % (lname(n), lint(v)) for n, v in sorted(ents, key=lambda e: (e[1], e[0]))) + "]\n\n"
     s += "def macros : List (Name × Int) := [\n"
     s += ",\n".join("  (%s, %s)" % (lname(n), lint(-((1 << 64) - int(v[1])) if v[0] else int(v[1]))) for n, v in sorted(pr["macros"].items())) + "]\n\n"
     for n, v in sorted(pr["macros"].items()):
@@ -682,6 +686,15 @@ def emit(data):
         items.append("  ⟨%s, [%s], [%s], [%s]⟩" % (lstr(f["file"]), ws, tls, ob))
     s += ",\n".join(items) + "]\n\nend LWV.Gen\n"
     out["Objects.lean"] = s
+    # ---- Imports: every symbol some object file leaves undefined (resolved by another object of the library or by libc)
+    defined = set()
+    allimp = set()
+    for f in data["objects"]:
+        allimp |= set(f.get("imports", []))
+    s = HEADER
+    s += "/-- undefined symbols of the -O2 objects: what the library calls outside its own translation units -/\n"
+    s += "def imports : List Name := [\n  " + ",\n  ".join(lname(x) for x in sorted(allimp) if all(32 <= ord(c) < 127 and c not in '"\\' for c in x)) + "]\n\nend LWV.Gen\n"
+    out["Imports.lean"] = s
     return out
 
 
